@@ -239,6 +239,9 @@ def run(cp: Compiled, bp: Any, inputs: dict[str, Any]) -> RunResult:
                                and k in knl.arg_dict
                                and isinstance(knl.arg_dict[k], lp.ValueArg)}
     res = RunResult()
+    # names of the offset arguments loopy created for `offset=lp.auto` arrays
+    offset_args = {a.offset for a in knl.args
+                   if isinstance(a, lp.ArrayArg) and isinstance(getattr(a, "offset", None), str)}
     cargs: list[Any] = []
     held: list[tuple[str, np.ndarray, np.ndarray, np.ndarray | None, bool]] = []
     seen_inputs: set[str] = set()
@@ -250,7 +253,7 @@ def run(cp: Compiled, bp: Any, inputs: dict[str, Any]) -> RunResult:
                 if name in allin:
                     val = allin[name]
                     seen_inputs.add(name)
-                elif name.endswith("_offset"):
+                elif name in offset_args or name.endswith("_offset"):
                     val = 0
                 else:
                     raise KernelContractError(f"kernel wants scalar argument {name!r} "
